@@ -22,7 +22,7 @@ import z3
 from psvc.contract import Contract, Clause, register, T, And, Or, Not, Implies, If, asserted, assertions_of
 from psvc import spec
 from contracts.task import make_task
-from contracts.task_constraint import assume_valid_task
+from contracts.task_constraint import assume_valid_task, dated_kw
 from contracts.resource import busy, decode
 
 
@@ -43,7 +43,12 @@ class IndBase(Contract):
     def cases(self, tier):
         hs = tuple(self.horizons) + (tuple(self.thorough_horizons) if tier == "thorough" else ())
         tss = tuple(self.task_sets) + (tuple(self.thorough_task_sets) if tier == "thorough" else ())
-        return [dict(ts=ts, horizon=h, **e) for ts in tss for h in hs for e in self.extra_cases(tier)]
+        out = [dict(ts=ts, horizon=h, **e) for ts in tss for h in hs for e in self.extra_cases(tier)]
+        # the same with release dates and (soft / hard) due dates declared on the tasks
+        ts = self.task_sets[1] if len(self.task_sets) > 1 else self.task_sets[0]
+        for e in self.extra_cases(tier):
+            out.append(dict(ts=ts, horizon=hs[0], dated="mixed", **e))
+        return out
 
     def make_worker(self, ps, P, case):
         return ps.Worker(name="w")
@@ -64,7 +69,10 @@ class IndBase(Contract):
             if self.with_due:
                 P.assume(P.int(f"t{i+1}_due") >= 0)
                 P.assume(P.int(f"t{i+1}_prio") >= 0)
-            t = make_task(ps, P, cls, f"t{i+1}", optional=opt, due=("int" if self.with_due else None), deadline=False)
+            dk = dated_kw(case, i)
+            if self.with_due:
+                dk = dict(due="int", deadline=dk.get("deadline", False), **({"release": True} if dk else {}))
+            t = make_task(ps, P, cls, f"t{i+1}", optional=opt, **dk)
             if self.with_due and case.get("prio") != "default":
                 t.priority = P.int(f"t{i+1}_prio")
             if w is not None:
